@@ -7,6 +7,7 @@
 (*  "small"   all small Decimals x / y / n for the public rounding ops      *)
 (*  "strings" all strings over a class alphabet up to length LMax           *)
 (*  "bounds"  all pairs of boundary-class operands (BigInt) x scales        *)
+(*  "floats"  every exponent field of f32 / f64 x fraction class x sign     *)
 EXTENDS BigInt, TLC, Json
 CONSTANTS Kind, NMax, DMax, LMax, ScaleSet
 
@@ -32,6 +33,7 @@ Init ==
        [] Kind = "small" -> a \in {<<c, f>> : c \in (0 - NMax)..NMax, f \in 0..2} /\ b = 0
        [] Kind = "strings" -> a = <<>> /\ b = 0
        [] Kind = "bounds" -> a \in {[c |-> c, f |-> f] : c \in Signed, f \in ScaleSet} /\ b = 0
+       [] Kind = "floats" -> a \in 0..2047 /\ b = 0
 Next ==
   CASE Kind = "kernel" -> out = "-" /\ \E d \in 1..DMax : out' = ToJson(<<a, d>>) /\ UNCHANGED <<a, b>>
     [] Kind = "small" -> out = "-" /\ \E yc \in YSmall, s \in {-1, 1}, yf \in 0..1, n \in 0..2 :
@@ -39,6 +41,8 @@ Next ==
     [] Kind = "strings" -> Len(a) < LMax /\ \E i \in 1..Len(Alphabet) : a' = Append(a, i) /\ out' = ToJson(a') /\ UNCHANGED b
     [] Kind = "bounds" -> out = "-" /\ \E y \in {[c |-> c, f |-> f] : c \in Signed, f \in ScaleSet} :
                            out' = ToJson([x |-> [s |-> a.c.s, m |-> a.c.m, f |-> a.f], y |-> [s |-> y.c.s, m |-> y.c.m, f |-> y.f]]) /\ UNCHANGED <<a, b>>
+    [] Kind = "floats" -> out = "-" /\ \E w \in {32, 64}, fc \in 0..(NMax - 1), sg \in {0, 1} :
+                           (w = 64 \/ a <= 255) /\ out' = ToJson(<<w, sg, a, fc>>) /\ UNCHANGED <<a, b>>
 Spec == Init /\ [][Next]_vars
 Emit == out = "-" \/ PrintT("VEC " \o out)
 =======================================================================
